@@ -32,7 +32,7 @@ import (
 )
 
 func TestC48(t *testing.T) {
-	c := ev.New("C48", "non-trivial: the issuer given to the parser is not the signer's CA (same-name/other-key or unrelated), or the response carries an embedded certificate, or the signing key is not the embedded certificate's key, or the embedded certificate is a look-alike of the issuer (copies subject/SubjectKeyId/AuthorityKeyId/serial/issuer name/validity/usages/CA flag, self-signed or signed by another CA, attacker key), or the responder id names the issuer although somebody else signed, or the response bytes were modified; distinct = (sub-property, signing mode, look-alike field set and signer, key kind, signature algorithm, CertID hash, status, issuer relation, cert argument, extension class, responder-id form, mutation kind and region, verdict)")
+	c := ev.New("C48", "non-trivial: the issuer given to the parser is not the signer's CA (same-name/other-key or unrelated), or the response carries an embedded certificate, or the signing key is not the embedded certificate's key, or the embedded certificate is a look-alike of the issuer (copies subject/SubjectKeyId/AuthorityKeyId/serial/issuer name/validity/usages/CA flag, self-signed or signed by another CA, attacker key), or the responder id names the issuer although somebody else signed, or the responderCert argument of CreateResponse is not the embedded/signing certificate (issuer, older/renewed sibling, another delegation, another CA), or the response bytes were modified; distinct = (sub-property, signing mode, look-alike field set and signer, responderCert relation x template.Certificate choice, key kind, signature algorithm, CertID hash, status, issuer relation, cert argument, extension class, responder-id form, mutation kind and region, verdict)")
 	defer c.Flush(t)
 	c.Oracle("signer model: generation-time knowledge of which key signed what (accept iff documented checks must pass)")
 	c.Oracle("independent RFC 6960 decoder + crypto/rsa, crypto/ecdsa verification (refcbyte, self-tested against OpenSSL 3.5 output)")
@@ -112,6 +112,9 @@ func c48CertArg(rt *rapid.T, serials []*big.Int) (cert *x509.Certificate, short 
 func c48PropCreateParse(rt *rapid.T, c *ev.Collector, pool *ref.OCSPPool) {
 	ca := pool.CAs[rapid.IntRange(0, len(pool.CAs)-1).Draw(rt, "ca")]
 	s := c48DrawSigning(rt, pool, ca)
+	var respCls string
+	s.respCert, respCls = c48DrawResponderCert(rt, pool, ca, s)
+	s.respCls = respCls
 	ver, verClass := c48DrawVerifier(rt, pool, ca)
 
 	var tmpl ocsp.Response
@@ -261,7 +264,7 @@ func c48PropCreateParse(rt *rapid.T, c *ev.Collector, pool *ref.OCSPPool) {
 	if perr == nil {
 		verdict = "accepted"
 	}
-	key := fmt.Sprintf("A|%s|%s|%v|h%d|%s|%s|%s|%s|%s|%s|%s", s.mode, s.priv.Kind, wantAlg, wantHash, statusCls, verClass, certCls, extCls, verdict, s.forgedCopy, s.forgedBy)
+	key := fmt.Sprintf("A|%s|%s|%v|h%d|%s|%s|%s|%s|%s|%s|%s|%s|%s", s.mode, s.priv.Kind, wantAlg, wantHash, statusCls, verClass, certCls, extCls, verdict, s.forgedCopy, s.forgedBy, respCls, s.embCls)
 	switch {
 	case !documentedStatus:
 		// ServerFailed "is unused and was never used": nothing but totality is demanded
@@ -311,15 +314,16 @@ func c48PropCreateParse(rt *rapid.T, c *ev.Collector, pool *ref.OCSPPool) {
 			}
 		}
 	}
-	nontrivial := s.embedded != nil || s.mode != "direct" || verClass == "ver=samename-otherkey" || verClass == "ver=unrelated"
+	nontrivial := s.embedded != nil || s.mode != "direct" || verClass == "ver=samename-otherkey" || verClass == "ver=unrelated" || respCls != "resp=issuer"
 	classes = append(classes, "A:"+s.mode, "A:key="+s.priv.Kind, "A:"+algCls, fmt.Sprintf("A:issuerHash=%d", tmpl.IssuerHash), "A:"+statusCls, "A:"+verClass, "A:"+certCls, "A:"+extCls, "A:"+sc, "A:"+verdict)
 	if tmpl.Status == ocsp.Revoked {
 		classes = append(classes, fmt.Sprintf("A:reason=%d", tmpl.RevocationReason))
 	}
 	classes = append(classes, c48ForgedClasses(s, verClass, verdict)...)
+	classes = append(classes, "A:"+respCls, "A:"+s.embCls, "A:"+respCls+"|"+s.embCls, "A:"+respCls+"|"+s.embCls+"|"+verdict)
 	c.Case(nontrivial, key, classes...)
 	if c.WantSample() {
-		c.Sample(map[string]any{"sub": "A", "mode": s.mode, "signer_key": s.priv.Kind, "sigalg": wantAlg.String(), "issuer_hash": int(wantHash), "status": statusCls,
+		c.Sample(map[string]any{"sub": "A", "mode": s.desc(), "signer_key": s.priv.Kind, "sigalg": wantAlg.String(), "issuer_hash": int(wantHash), "status": statusCls,
 			"verifier": verClass, "cert_arg": certCls, "ext": extCls, "serial": tmpl.SerialNumber.String(), "thisUpdate": tmpl.ThisUpdate.String(), "verdict": verdict, "der": ev.Hex(der)})
 	}
 }
@@ -419,6 +423,7 @@ func c48PropRefBuilt(rt *rapid.T, c *ev.Collector, pool *ref.OCSPPool) {
 		s.mode, s.noEKU = "delegated", false // the EKU question is covered in A
 		rs := pool.RespondersOf(ca.ID, true)
 		s.priv, s.embedded, s.embKey, s.respCert, s.respKey = rs[0].Key, rs[0].Cert, rs[0].Key, rs[0].Cert, rs[0].Key
+		s.embCls = "emb=delegation"
 	}
 	ver, verClass := c48DrawVerifier(rt, pool, ca)
 	spec := ref.OCSPRefSpec{Signer: s.priv.Priv}
@@ -588,7 +593,7 @@ func c48PropRefBuilt(rt *rapid.T, c *ev.Collector, pool *ref.OCSPPool) {
 		nontrivial = true
 		c.Class("responder-id-points-at-issuer:" + s.mode + ":" + verClass + ":" + verdict)
 	}
-	c.Case(nontrivial, key, "B:"+s.mode, "B:key="+s.priv.Kind, "B:"+ridCls, "B:"+verClass, "B:"+certCls, fmt.Sprintf("B:singles=%d", nSingles), "B:"+certsCls, "B:"+verdict)
+	c.Case(nontrivial, key, "B:"+s.embCls, "B:"+s.mode, "B:key="+s.priv.Kind, "B:"+ridCls, "B:"+verClass, "B:"+certCls, fmt.Sprintf("B:singles=%d", nSingles), "B:"+certsCls, "B:"+verdict)
 	if c.WantSample() {
 		c.Sample(map[string]any{"sub": "B", "mode": s.mode, "signer_key": s.priv.Kind, "sigalg": spec.SigAlg.String(), "responder_id": ridCls, "verifier": verClass,
 			"cert_arg": certCls, "singles": nSingles, "certs": certsCls, "verdict": verdict, "der": ev.Hex(der)})
